@@ -294,13 +294,13 @@ const (
 
 // SumHead is a tree head the harness signed with the good key.
 type SumHead struct {
-	Side  int // -1: bogus hash
-	N     int64
-	Hash  tlog.Hash
-	Text  string // the signed text
-	Sig   []byte // ed25519 signature by the good key
-	Line  string // the signature line
-	Msg   []byte // text + "\n" + line (kind HeadGood)
+	Side int // -1: bogus hash
+	N    int64
+	Hash tlog.Hash
+	Text string // the signed text
+	Sig  []byte // ed25519 signature by the good key
+	Line string // the signature line
+	Msg  []byte // text + "\n" + line (kind HeadGood)
 }
 
 func sumTreeText(n int64, h tlog.Hash) string {
@@ -505,11 +505,28 @@ func (w *SumWorld) GoodNote(msg []byte) *SumHead {
 		return nil
 	}
 	for _, ln := range strings.SplitAfter(sigs, "\n") {
-		if ln == hd.Line {
+		if ln == hd.Line || sumSigLineEq(ln, hd.Line) {
 			return hd
 		}
 	}
 	return nil
+}
+
+// sumSigLineEq compares two signature lines "— name base64\n" by signer name and DECODED
+// signature bytes. encoding/base64's StdEncoding (which note.Open uses) accepts non-zero
+// trailing bits, so a one-bit change in the last base64 character of a signature can leave
+// the signature itself unchanged: such a note still opens, its text and signature are the
+// ones the harness signed, and only the spelling of the base64 differs. Demanding the
+// literal line would be stricter than the property (found as a false alarm at seed 4).
+func sumSigLineEq(a, b string) bool {
+	pa, pb := strings.TrimSuffix(a, "\n"), strings.TrimSuffix(b, "\n")
+	ia, ib := strings.LastIndexByte(pa, ' '), strings.LastIndexByte(pb, ' ')
+	if ia < 0 || ib < 0 || pa[:ia] != pb[:ib] || !strings.HasSuffix(a, "\n") {
+		return false
+	}
+	da, ea := base64.StdEncoding.DecodeString(pa[ia+1:])
+	db, eb := base64.StdEncoding.DecodeString(pb[ib+1:])
+	return ea == nil && eb == nil && bytes.Equal(da, db)
 }
 
 // SidesOf lists the sides (0 = A, 1 = B) on which (n, h) is a true head.
@@ -594,13 +611,13 @@ type SumFault struct {
 // probability Frac percent, decided by a hash of Seed and the name), optionally the lookup
 // files of the first N records, optionally one corrupted file.
 type SumCacheSpec struct {
-	Side    int   `json:"side"`
-	N       int64 `json:"n"` // 0: cold
-	Frac    int   `json:"frac"`
-	Seed    int64 `json:"seed"`
-	Lookups bool  `json:"lookups"`
-	Corrupt int   `json:"corrupt"` // index (mod number of files, in name order) of the file to corrupt; -1 none
-	CKind   string `json:"ckind"`  // flip | trunc | extend | empty
+	Side    int    `json:"side"`
+	N       int64  `json:"n"` // 0: cold
+	Frac    int    `json:"frac"`
+	Seed    int64  `json:"seed"`
+	Lookups bool   `json:"lookups"`
+	Corrupt int    `json:"corrupt"` // index (mod number of files, in name order) of the file to corrupt; -1 none
+	CKind   string `json:"ckind"`   // flip | trunc | extend | empty
 }
 
 // SumConfigSpec describes the initial configuration.
